@@ -426,6 +426,9 @@ func (c *Ctx) RunC03(tier string) {
 				p.Equs = append(p.Equs, ref.AEqu{Name: fmt.Sprintf("e%d", i), Body: toks(body)})
 				p.Ins = append(p.Ins, ref.AIns{Labels: []string{fmt.Sprintf("l%d", i)}, Op: "mov", A: operand("", fmt.Sprintf("e%d", i)), B: operand("@", fmt.Sprintf("l%d-e%d", (i*5)%n, n-1-i))})
 			}
+			// a diamond: two EQUs that both use a third one (and each other's sum)
+			p.Equs = append(p.Equs, ref.AEqu{Name: "da", Body: toks("dc+1")}, ref.AEqu{Name: "db", Body: toks("dc*2+da")}, ref.AEqu{Name: "dc", Body: toks("l3-l1")})
+			p.Ins = append(p.Ins, ref.AIns{Op: "add", A: operand("#", "da+db"), B: operand("", "db-da-dc")}, ref.AIns{Op: "sub", A: operand("#", "dc"), B: operand("<", "da")})
 			p.StartKind, p.StartExpr = ref.StartOrg, toks("l13")
 			m, err := ref.Denote(p, cfg)
 			if err != nil {
@@ -433,10 +436,36 @@ func (c *Ctx) RunC03(tier string) {
 				continue
 			}
 			src, _ := Render(p, nil)
-			c.checkSrc("C03", mkCase(p, m, cfg, src, "14 chained EQUs and 14 labels"))
+			c.checkSrc("C03", mkCase(p, m, cfg, src, "14 chained EQUs, an EQU diamond and 14 labels"))
 			rep.Count("c03:many-symbol-programs")
 		}
-		rep.Bound += "; a program with 14 labels and 14 EQUs chained through each other"
+		rep.Bound += "; a program with 14 labels, 14 EQUs chained through each other and three EQUs in a diamond"
+	}
+
+	// P2f: metadata texts: blanks and tabs inside a name or author are part of
+	// the text, blanks around it are not; long and non-ASCII texts
+	if c.Sh.I == 2%c.Sh.N {
+		texts := []string{"x", "Two  blanks", "tab\there", "three   blanks and\ta tab", "dots.and,commas:and-dashes", "UPPER lower 123", "größe und Ünïcödé",
+			strings.Repeat("a long name ", 40) + "end", "ends with a digit 7", "1 starts with a digit", "equ for rof end org dat"}
+		for ti, tx := range texts {
+			for _, dialect := range []g.SimulatorMode{g.ICWS94, g.ICWS88} {
+				cfg := cfgM(8000, dialect)
+				p := &ref.AProg{Name: tx, Author: texts[(ti+3)%len(texts)], Strategy: []string{tx, "second  line\twith a tab"}}
+				p.Ins = []ref.AIns{{Op: "mov", A: operand("", "0"), B: operand("", "1")}}
+				m, err := ref.Denote(p, cfg)
+				if err != nil {
+					rep.Count("c03:generator-skipped-ill-formed")
+					continue
+				}
+				src, _ := Render(p, nil)
+				c.checkSrc("C03", mkCase(p, m, cfg, src, "metadata texts"))
+				// the same with blanks around the texts (not part of them)
+				src2 := strings.Replace(strings.Replace(src, ";name "+tx, ";name   "+tx+"  ", 1), ";author "+p.Author, ";author\t"+p.Author+" ", 1)
+				c.checkSrc("C03", mkCase(p, m, cfg, src2, "metadata texts with blanks around them"))
+				rep.Count("c03:metadata-texts")
+			}
+		}
+		rep.Bound += "; 11 name / author / strategy texts (double blanks, tabs, punctuation, non-ASCII letters, 480 characters, keywords) bare and with blanks around them, both dialects"
 	}
 
 	// P3: renderings. Representative programs x every deviation set of size
